@@ -38,6 +38,7 @@ func init() {
 			py.MustNewMethod("log", hostLog, 0, "log(*values): append canonical renderings to the trace"),
 			py.MustNewMethod("exc_name", hostExcName, 0, "exc_name(e): class name of an exception instance"),
 			py.MustNewMethod("tick", hostTick, 0, "tick(i): side effect marker"),
+			py.MustNewMethod("tk", hostTk, 0, "tk(i, v): side effect marker i, returns v"),
 		},
 	})
 }
@@ -73,6 +74,17 @@ func hostTick(self py.Object, args py.Tuple) (py.Object, error) {
 	return py.None, nil
 }
 
+func hostTk(self py.Object, args py.Tuple) (py.Object, error) {
+	if len(args) != 2 {
+		return nil, py.ExceptionNewf(py.TypeError, "tk takes two arguments")
+	}
+	s := sessionOf(self)
+	if s != nil && s.Hook != nil {
+		s.Hook("tick", args)
+	}
+	return args[1], nil
+}
+
 func (s *Session) add(line string) {
 	if s.Max > 0 && len(s.Trace) >= s.Max {
 		return
@@ -103,6 +115,14 @@ func normExc(n string) string {
 		return "ImportError"
 	}
 	return n
+}
+
+// Attach registers an externally created context (e.g. the REPL's) as a
+// session so that simlog's host functions find it.
+func Attach(ctx py.Context, main *py.Module) *Session {
+	s := &Session{Ctx: ctx, Main: main, Max: 5000}
+	sessions[ctx] = s
+	return s
 }
 
 // NewSession creates a context (outside or inside a simulation).
